@@ -127,6 +127,18 @@ def reuse_scenarios():
         steps.append([{"op": "next", "r": 2}, {"op": "next", "r": 3}, {"op": "close", "r": 2, "how": "drop"}])
         steps.append([{"op": "solve", "e": 1, "r": 4, "goal": C("p", V(0)), "qnv": 1, "k": 0}])
         scns.append({"scripts": {}, "steps": steps, "keys": KEYS})
+    # an enumeration is suspended; a retract with a bound pattern is suspended on a non-ground fact the enumeration
+    # has yet to visit (logical update view: it still visits it); the enumeration's use of that fact has variables
+    # of its own
+    for pat in (C("p", a), C("p", C("f", a)), C("p", V(0))):
+        for fact in (C("p", V(0)), C("p", C("f", V(0)))):
+            steps = [[{"op": "assert", "e": 1, "term": C("p", A("c0")), "atEnd": True, "r": 0}], [{"op": "assert", "e": 1, "term": fact, "atEnd": True, "r": 0}],
+                     [{"op": "assert", "e": 1, "term": C("p", A("c9")), "atEnd": True, "r": 0}],
+                     [{"op": "query", "e": 1, "r": 1, "goal": C("p", V(0)), "qnv": 1}], [{"op": "next", "r": 1}],
+                     [{"op": "query", "e": 1, "r": 2, "goal": C("retract", pat), "qnv": 1 if pat["a"][0]["t"] == "v" else 0}], [{"op": "next", "r": 2}],
+                     [{"op": "next", "r": 1}, {"op": "next", "r": 2}], [{"op": "next", "r": 1}, {"op": "close", "r": 2, "how": "close"}], [{"op": "next", "r": 1}],
+                     [{"op": "solve", "e": 1, "r": 3, "goal": C("p", V(0)), "qnv": 1, "k": 0}]]
+            scns.append({"scripts": {}, "steps": steps, "keys": KEYS})
     return scns
 
 
